@@ -13,6 +13,8 @@
 //     hex/base64 codecs and the free conversion functions, from short and long pre-states.
 #define VF_MAIN_TU
 #include "strsys.h"
+#include <thread>
+#include "st_stdio.h"
 #include "st_codecs.h"
 
 enum { K_FAULTS = 8 };  // fault indices explored per mutator; no mutator makes that many allocations (checked)
@@ -619,6 +621,63 @@ static void other_scenarios()
                                          return std::string();
                                      }});
         }
+    }
+    // insertion of wide / UTF-16 / UTF-32 text of 2-, 3- and 4-byte characters at every fill level below a capacity boundary: the
+    // room needed is the UTF-8 size, not the number of units; a failing growth leaves the stream as it was
+    for (size_t fill = 256 - 22; fill <= 256; ++fill)
+        for (int what = 0; what < 6; ++what) {
+            static const char *WN[6] = {"<< U\"5 x e-acute\"", "<< u\"5 x euro\"", "<< L\"4 x U+1F600\"", "<< std::u32string(7 x e-acute)", "<< std::u16string_view(3 x U+1F600)", "<< std::wstring(6 x euro)"};
+            g_scn.push_back(Scenario{vf::strf("string_stream[%zu] %s", fill, WN[what]), [=](vf::Outcome &oc) {
+                                         std::string pv(fill, 'p');
+                                         ST::string_stream ss;
+                                         SETUP(ss.append(pv.data(), pv.size()));
+                                         std::string add;
+                                         oc = vf::guard([&] {
+                                             switch (what) {
+                                             case 0: add = "\xC3\xA9\xC3\xA9\xC3\xA9\xC3\xA9\xC3\xA9"; LIB(ss << U"\u00e9\u00e9\u00e9\u00e9\u00e9"); break;
+                                             case 1: add = "\xE2\x82\xAC\xE2\x82\xAC\xE2\x82\xAC\xE2\x82\xAC\xE2\x82\xAC"; LIB(ss << u"\u20ac\u20ac\u20ac\u20ac\u20ac"); break;
+                                             case 2: add = "\xF0\x9F\x98\x80\xF0\x9F\x98\x80\xF0\x9F\x98\x80\xF0\x9F\x98\x80"; LIB(ss << L"\U0001F600\U0001F600\U0001F600\U0001F600"); break;
+                                             case 3: add = "\xC3\xA9\xC3\xA9\xC3\xA9\xC3\xA9\xC3\xA9\xC3\xA9\xC3\xA9"; LIB(ss << std::u32string(7, U'\u00e9')); break;
+                                             case 4: add = "\xF0\x9F\x98\x80\xF0\x9F\x98\x80\xF0\x9F\x98\x80"; LIB(ss << std::u16string_view(u"\U0001F600\U0001F600\U0001F600")); break;
+                                             default: add = "\xE2\x82\xAC\xE2\x82\xAC\xE2\x82\xAC\xE2\x82\xAC\xE2\x82\xAC\xE2\x82\xAC"; LIB(ss << std::wstring(6, L'\u20ac')); break;
+                                             }
+                                         });
+                                         std::string pr;
+                                         if (!oc.ok()) pr = stream_problem(ss, pv);
+                                         else if (std::string(ss.raw_buffer(), ss.size()) != pv + add) pr = "wrong content after the insertion";
+                                         LIB(ss.~string_stream(); new (&ss) ST::string_stream());
+                                         return pr;
+                                     }});
+        }
+    // printf / writef with arguments that allocate: after the failure the FILE is not left locked and the stream's formatting state
+    // is as before
+    for (int what = 0; what < 3; ++what) {
+        static const char *WN[3] = {"printf(FILE*, {} {}, long ST::string, long std::string)", "printf(FILE*, {}, wide text)", "printf(FILE*, {>300}{}, 7, long ST::string)"};
+        g_scn.push_back(Scenario{WN[what], [=](vf::Outcome &oc) {
+                                     FILE *f = tmpfile();
+                                     if (!f) return std::string();
+                                     S a;
+                                     SETUP(a = S::from_validated(u8long.data(), u8long.size()));
+                                     oc = vf::guard([&] {
+                                         if (what == 0) LIB(ST::printf(f, "{} {}\n", a, std::string(40, 's')));
+                                         else if (what == 1) LIB(ST::printf(f, "{}\n", L"wide text that is long enough for the heap \u20ac"));
+                                         else LIB(ST::printf(f, "{>300}{}\n", 7, a));
+                                     });
+                                     bool free_for_others = false;
+                                     {
+                                         vf::Bypass bp;
+                                         std::thread th([&] {
+                                             if (ftrylockfile(f) == 0) {
+                                                 free_for_others = true;
+                                                 funlockfile(f);
+                                             }
+                                         });
+                                         th.join();
+                                     }
+                                     fclose(f);
+                                     LIB(a.~S(); new (&a) S());
+                                     return free_for_others ? std::string() : std::string("the FILE is left locked: no other thread can use it");
+                                 }});
     }
     // stream insertion with the stream at every fill level just below a capacity boundary (sign / first piece fits, the rest
     // needs the growth that fails)
